@@ -1,0 +1,5 @@
+//go:build !verif
+
+package contentstream
+
+func verifYield(point string, p *Parser) {}
